@@ -145,6 +145,7 @@ func NewStd(o *kernel.Outcome, tape *kernel.Tape, opt StdOptions) (*World, error
 	w.Store.TypedNil = tape.Sub("cfg-typed-nil").Bool(1, 2)
 	w.Store.WrapSentinels = tape.Sub("cfg-wrap-sentinels").Bool(1, 2)
 	w.Store.UnknownClientAs = tape.Sub("cfg-unknown-client").Pick("", "", "oauth", "oauth-wrapped")
+	w.Store.LenientEmptySecret = tape.Sub("cfg-empty-secret").Bool(1, 2)
 	w.Store.EmptyAudience = tape.Sub("cfg-empty-aud").Bool(1, 2)
 	w.Store.TrustJWTExpiry = tape.Sub("cfg-jwt-expiry").Bool(1, 2)
 	if w.Store.TrustJWTExpiry {
@@ -377,6 +378,10 @@ func (w *World) PostFormCtx(ctx context.Context, path string, form url.Values, c
 		f.Set("client_secret", c.Secret)
 	case "id-only":
 		f.Set("client_id", c.ID)
+	case "assertion-type-only":
+		// names itself and announces an assertion that never comes (no assertion, no secret)
+		f.Set("client_id", c.ID)
+		f.Set("client_assertion_type", oidc.ClientAssertionTypeJWTAssertion)
 	case "assertion":
 		f.Set("client_assertion", c.Assertion)
 		f.Set("client_assertion_type", oidc.ClientAssertionTypeJWTAssertion)
